@@ -11,6 +11,7 @@ import Proofs.HandlerWire
 import Proofs.HandlerTyped
 import Proofs.Arrayterator
 import Proofs.HandlerAscii
+import Proofs.HandlerLeaves
 namespace Pydap.C06
 open Pydap Pydap.Handler
 
@@ -134,6 +135,17 @@ theorem C06_ascii_prints_every_value (fmt : Int → Str) (ds cds : Dataset) (q :
   have hw := constrained_wf ds cds q hds h
   obtain ⟨e1, e2⟩ := asciiData_factors fmt cds hw
   exact ⟨(C06_same_decl fmt ds q cds h).2.2 _ e1, e2, cellsData_print fmt cds, cellsData_length fmt cds⟩
+
+/-- **`dodsValues` IS what the data response carries** (round 7; closes the link the theorem above relies on): the
+    atomic values of the data handed to C05's encoder (`leaves (dataOf cds)`, wire order) are, pointwise and in order,
+    the values `dodsValues cds` (each in the vocabulary of its declared type, `xValR`); and by
+    `C06_payload_decodes_source` the payload is the reference encoding of exactly that data.  Together with
+    `C06_ascii_prints_every_value`: i-th printed cell = print of the i-th value on the wire. -/
+theorem C06_data_response_carries_wire_values (ds cds : Dataset) (q : Str) (hds : ds.WF)
+    (h : constrained ds q = .ok cds) :
+    List.Forall₂ CarriedAs (leaves (dataOf cds)) (dodsValues cds) ∧
+    payload cds = Xdr.encImpl (tmplOf cds) (dataOf cds) :=
+  ⟨leaves_dataOf cds (constrained_wf ds cds q hds h), rfl⟩
 
 /-- … and two constrained datasets with the same declarations whose wire values print alike have the same listing:
     nothing but the declaration and the printed wire values reaches the ASCII data section -/
